@@ -82,8 +82,10 @@ CLAIMS = {
                  "value_from_person gives every group the value of the member holding a unique role, in any storage order (lemma: "
                  "two increasing enumerations of one set coincide, applied by a ghost statement); a chain of projectors of any "
                  "length applies each projector's transform, innermost first (recursive call under its own contract)."),
-        "note": ("NOT covered in this version (listed under not_decided, no stand-in is counted as proof): reduce / min / max / all, "
-                 "value_nth_person and get_rank, and the shortcut resolution of projectors. numpy enters through "
+        "note": ("Also proved: value_nth_person (counting lemmas: positions distinct, below the size, every rank taken), reduce with "
+                 "maximum / minimum / logical_and (loop invariant with a ghost 'attained at' function), max / min / all / "
+                 "value_from_first_person as delegations. NOT covered: get_rank, reduce with other reducers, the shortcut resolution of "
+                 "projectors. numpy enters through "
                  "assumed contracts validated against numpy on every run. One genuine defect (trailing empty groups dropped) was "
                  "repaired by a fix: commit."),
         "technique": "contract-based deductive verification (reduction nodes compared pointwise, loop invariant with ghost counter + SMT)",
